@@ -11,7 +11,7 @@ From Coq Require Import List Arith NArith ZArith Bool.
 From Coq Require Import String.
 Require Import RV.Model.Base RV.Model.RespWrite RV.Model.RespStream.
 Require Import RV.Proofs.RespRoundtrip RV.Proofs.RespStreamProofs RV.Proofs.RespStreamCounted RV.Proofs.RespStreamValues
-               RV.Proofs.RespStreamChunks RV.Proofs.RespStreamC29.
+               RV.Proofs.RespStreamChunks RV.Proofs.RespStreamC29 RV.Proofs.RespStreamTrunc.
 Import ListNotations.
 Open Scope N_scope.
 
@@ -83,8 +83,18 @@ Theorem C29_bytes_aggregate_refused : forall (B : nat) (t : N) (st : bool) (l : 
 Proof. intros B t st l rest f w HB. now apply stream_aggregate. Qed.
 Print Assumptions C29_bytes_aggregate_refused.
 
-(** Not proved, observed on every run (obs_respstream, kinds trunc / writer): every strict prefix of a reply
-    is reported unclean with an error; a streamed string whose writer fails is reported unclean. *)
+(** failure of the INPUT at every byte: every strict prefix of a counted string reply (cut inside the length
+    line, inside the payload or inside the final CRLF, or empty) is reported unclean, with an error -- the
+    connection must not be recycled *)
+Theorem C29_bytes_truncated_unclean : forall (B : nat) (t : N) (s : bytes) (k f : nat) (w : wstate),
+  (32 <= B)%nat -> (t = tBlobString \/ t = tVerbatim) -> (zlen s < two63)%Z -> unlimited w ->
+  (k < List.length (enc (VBlob t s)))%nat ->
+  unclean (fst (fst (runw B (stream_to (S f)) (firstn k (enc (VBlob t s))) w))).
+Proof. intros B t s k f w HB. now apply stream_counted_trunc. Qed.
+Print Assumptions C29_bytes_truncated_unclean.
+
+(** Not proved, observed on every run (obs_respstream, kinds trunc / writer): truncations of the other reply
+    kinds (streamed strings, lines, integers, …) are unclean; a streamed string whose writer fails is unclean. *)
 
 (** non-vacuity: a streamed verbatim string after a push, a writer failing inside a counted string,
     a RESP2 null, a blob error *)
